@@ -1358,7 +1358,13 @@ impl<'a> CompilerState<'a> {
                             Rule::array_spec => {
                                 start = p.as_span().start();
                                 if let Some(px) = p.into_inner().next() {
-                                    size = Some(self.parse_calc(px.into_inner())? as usize);
+                                    {
+                                        let array_size = self.parse_calc(px.into_inner())?;
+                                        if array_size < 0 {
+                                            return Err(self.syntax_error("Negative array size", start));
+                                        }
+                                        size = Some(array_size as usize);
+                                    }
                                 }
                                 if var_type == VariableType::Char {
                                     var_type = VariableType::CharPtr;
@@ -1875,7 +1881,13 @@ impl<'a> CompilerState<'a> {
                                     Rule::array_spec => {
                                         start = p.as_span().start();
                                         if let Some(px) = p.into_inner().next() {
-                                            size = Some(self.parse_calc(px.into_inner())? as usize);
+                                            {
+                                                let array_size = self.parse_calc(px.into_inner())?;
+                                                if array_size < 0 {
+                                                    return Err(self.syntax_error("Negative array size", start));
+                                                }
+                                                size = Some(array_size as usize);
+                                            }
                                         }
                                         if var_type == VariableType::Char {
                                             var_type = VariableType::CharPtr;
@@ -2195,7 +2207,13 @@ impl<'a> CompilerState<'a> {
                                 Rule::array_spec => {
                                     start = pair.as_span().start();
                                     if let Some(px) = pair.into_inner().next() {
-                                        size = Some(self.parse_calc(px.into_inner())? as usize);
+                                        {
+                                            let array_size = self.parse_calc(px.into_inner())?;
+                                            if array_size < 0 {
+                                                return Err(self.syntax_error("Negative array size", start));
+                                            }
+                                            size = Some(array_size as usize);
+                                        }
                                     }
                                     if var_type == VariableType::Char {
                                         var_type = VariableType::CharPtr;
